@@ -103,13 +103,14 @@ class Guided:
 # ----------------------------------------------------------------------------------------
 # how the worker object is built (callback flavours)
 # ----------------------------------------------------------------------------------------
-FLAVOURS = ("bound", "lambda", "partial", "func", "callobj", "same")
+FLAVOURS = ("bound", "lambda", "partial", "func", "callobj", "same", "ret")
 FLAVOUR_DOC = {
     "": "closures kept alive by the harness",
     "bound": "bound methods of a temporary object that nothing else references (owner dropped, gc.collect())",
     "lambda": "temporary lambdas", "partial": "temporary functools.partial objects",
     "func": "plain module-level functions", "callobj": "temporary objects with __call__",
     "same": "closures; the worker thread has the same name as the controlling thread",
+    "ret": "closures that RETURN truthy values (a count, True, a string): what a callback returns must not matter",
 }
 _G = {}     # recorder of the case in progress (for the plain module-level callbacks)
 
@@ -197,6 +198,24 @@ def build_worker(nt, rec, cfg, flav, name="w"):
 
         tc = nt.ThreadCommon(target, init=init if wi else None, final=final if wf else None, name=name)
         return tc, (target, init, final)
+    if flav == "ret":
+        n = [0]
+
+        def target_r():
+            _emit(rec, "target")
+            n[0] += 1
+            return (n[0], True, "more", [n[0]])[n[0] % 4]
+
+        def init_r():
+            _emit(rec, "init")
+            return "ready"
+
+        def final_r():
+            _emit(rec, "final")
+            return True
+
+        tc = nt.ThreadCommon(target_r, init=init_r if wi else None, final=final_r if wf else None, name=name)
+        return tc, (target_r, init_r, final_r)
     if flav == "bound":
         job = _Job(rec)
         tc = nt.ThreadCommon(job.step, init=job.init if wi else None, final=job.final if wf else None, name=name)
